@@ -111,41 +111,23 @@ Theorem gstrs_first_offender_partial_proof :
 Proof.
   intros p a HL HU HB Hn; unfold gstrs_check, doc_gstrs.
   rewrite spec_info_cons; cbv beta.
-  destruct (is_complex p).
-  - match goal with |- (if ?c then _ else _) = _ => destruct c eqn:Hc end;
-    match goal with |- _ = gstrs_renumber (if ?d then _ else _) => destruct d eqn:Hd end;
-    [ exfalso; unfold_preds; lia | reflexivity | | exfalso; unfold_preds; lia ].
-    clear Hc Hd.
-    rewrite spec_info_cons; cbv beta; rewrite HL, andb_true_r.
-    match goal with |- (if ?c then _ else _) = _ => destruct c eqn:Hc end;
-    match goal with |- _ = gstrs_renumber (if ?d then _ else _) => destruct d eqn:Hd end;
-    [ exfalso; unfold_preds; lia | reflexivity | | exfalso; unfold_preds; lia ].
-    rewrite spec_info_cons; cbv beta; rewrite HU, andb_true_r.
-    match goal with |- (if ?c then _ else _) = _ => destruct c eqn:Hc2 end;
-    match goal with |- _ = gstrs_renumber (if ?d then _ else _) => destruct d eqn:Hd2 end;
-    [ exfalso; unfold_preds; lia | reflexivity | | exfalso; unfold_preds; lia ].
-    rewrite spec_info_cons; cbv beta; rewrite HB.
-    match goal with |- (if ?c then _ else _) = _ => destruct c eqn:Hc3 end;
-    match goal with |- _ = gstrs_renumber (if ?d then _ else _) => destruct d eqn:Hd3 end;
-    [ exfalso; unfold_preds; lia | reflexivity | | exfalso; unfold_preds; lia ].
-    reflexivity.
-  - match goal with |- (if ?c then _ else _) = _ => destruct c eqn:Hc end;
-    match goal with |- _ = gstrs_renumber (if ?d then _ else _) => destruct d eqn:Hd end;
-    [ exfalso; unfold_preds; lia | reflexivity | | exfalso; unfold_preds; lia ].
-    clear Hc Hd.
-    rewrite spec_info_cons; cbv beta; rewrite HL, andb_true_r.
-    match goal with |- (if ?c then _ else _) = _ => destruct c eqn:Hc end;
-    match goal with |- _ = gstrs_renumber (if ?d then _ else _) => destruct d eqn:Hd end;
-    [ exfalso; unfold_preds; lia | reflexivity | | exfalso; unfold_preds; lia ].
-    rewrite spec_info_cons; cbv beta; rewrite HU, andb_true_r.
-    match goal with |- (if ?c then _ else _) = _ => destruct c eqn:Hc2 end;
-    match goal with |- _ = gstrs_renumber (if ?d then _ else _) => destruct d eqn:Hd2 end;
-    [ exfalso; unfold_preds; lia | reflexivity | | exfalso; unfold_preds; lia ].
-    rewrite spec_info_cons; cbv beta; rewrite HB.
-    match goal with |- (if ?c then _ else _) = _ => destruct c eqn:Hc3 end;
-    match goal with |- _ = gstrs_renumber (if ?d then _ else _) => destruct d eqn:Hd3 end;
-    [ exfalso; unfold_preds; lia | reflexivity | | exfalso; unfold_preds; lia ].
-    reflexivity.
+  match goal with |- (if ?c then _ else _) = _ => destruct c eqn:Hc end;
+  match goal with |- _ = gstrs_renumber (if ?d then _ else _) => destruct d eqn:Hd end;
+  [ exfalso; unfold_preds; lia | reflexivity | | exfalso; unfold_preds; lia ].
+  clear Hc Hd.
+  rewrite spec_info_cons; cbv beta; rewrite HL, andb_true_r.
+  match goal with |- (if ?c then _ else _) = _ => destruct c eqn:Hc end;
+  match goal with |- _ = gstrs_renumber (if ?d then _ else _) => destruct d eqn:Hd end;
+  [ exfalso; unfold_preds; lia | reflexivity | | exfalso; unfold_preds; lia ].
+  rewrite spec_info_cons; cbv beta; rewrite HU, andb_true_r.
+  match goal with |- (if ?c then _ else _) = _ => destruct c eqn:Hc2 end;
+  match goal with |- _ = gstrs_renumber (if ?d then _ else _) => destruct d eqn:Hd2 end;
+  [ exfalso; unfold_preds; lia | reflexivity | | exfalso; unfold_preds; lia ].
+  rewrite spec_info_cons; cbv beta; rewrite HB.
+  match goal with |- (if ?c then _ else _) = _ => destruct c eqn:Hc3 end;
+  match goal with |- _ = gstrs_renumber (if ?d then _ else _) => destruct d eqn:Hd3 end;
+  [ exfalso; unfold_preds; lia | reflexivity | | exfalso; unfold_preds; lia ].
+  reflexivity.
 Qed.
 
 Definition good_L p n := mkMat c_SLU_SCP (dtype_of p) c_SLU_TRLU n n 0.
@@ -174,18 +156,27 @@ Proof. vm_compute. repeat split; reflexivity. Qed.
 Example gstrs_partial_nonvacuous :
   let a := mkGstrs c_CONJ (good_L PD 3) (good_U PD 3) (good_DN PD 3 1 2) in
   l_types PD (gt_L a) = true /\ u_types PD (gt_U a) = true /\ dn_types PD (gt_B a) = true /\
-  0 <= m_nc (gt_B a) /\ gstrs_check PD a = -1 /\
-  gstrs_check PZ (mkGstrs c_CONJ (good_L PZ 3) (good_U PZ 3) (good_DN PZ 3 1 2)) = -6.
+  0 <= m_nc (gt_B a) /\ gstrs_check PD a = -6 /\
+  gstrs_check PZ (mkGstrs 7 (good_L PZ 3) (good_U PZ 3) (good_DN PZ 3 1 2)) = -1.
 Proof. vm_compute. repeat split; try reflexivity; discriminate. Qed.
 
-(* a documented-legal call of the complex twins (trans = CONJ) comes back with info = -2: the inner
-   sp_?trsv rejects 'C' *)
-Theorem gstrs_conj_refuted_proof :
-  exists a, spec_info (doc_gstrs PZ) a = 0 /\ gstrs_check PZ a = 0 /\ gstrs_final_info PZ a = -2.
+(* since 6b4d237 / 44032f9 (fixes of findings F20 / F3) the inner triangular solves are always called with 'T':
+   what ?gstrs leaves in *info is what its own tests decided, for every precision and every trans *)
+Theorem gstrs_final_is_own_check_proof : forall p a, gstrs_final_info p a = gstrs_check p a.
 Proof.
-  exists (mkGstrs c_CONJ (good_L PZ 3) (good_U PZ 3) (good_DN PZ 3 1 3)).
-  vm_compute. repeat split; reflexivity.
+  intros p a. unfold gstrs_final_info.
+  destruct (neqb (gstrs_check p a) 0) eqn:Hn; [reflexivity|].
+  assert (H0 : gstrs_check p a = 0) by (unfold neqb in Hn; apply negb_false_iff in Hn; apply Z.eqb_eq in Hn; exact Hn).
+  rewrite H0.
+  destruct (negb (gt_trans a =? c_NOTRANS) && (0 <? m_nc (gt_B a))); [|reflexivity].
+  revert H0. unfold gstrs_check, trsv_check; cbn [tv_uplo tv_trans tv_diag tv_L tv_U].
+  repeat match goal with |- context [if ?c then _ else _] => destruct c eqn:? end; intros; try reflexivity; try discriminate.
 Qed.
+
+Example gstrs_conj_accepted :
+  gstrs_final_info PZ (mkGstrs c_CONJ (good_L PZ 3) (good_U PZ 3) (good_DN PZ 3 1 3)) = 0 /\
+  gstrs_final_info PD (mkGstrs c_CONJ (good_L PD 3) (good_U PD 3) (good_DN PD 3 1 3)) = 0.
+Proof. vm_compute. split; reflexivity. Qed.
 
 (* ================================================================== ?gsrfs : partial + refuted *)
 Definition gsrfs_first_offender_full : Prop :=
